@@ -87,6 +87,7 @@ def evaluate(P, cases):
     blocks = [c.block for c in cases]
     t = time.time()
     reals = core.eval_real(blocks)
+    core.prefetch_childq(reals)
     t_real = time.time() - t
     flat = [l for b in blocks for l in b]
     t = time.time()
@@ -232,6 +233,30 @@ def run_check(pid, tier, seed, replay=None):
             elif kind == "tie":
                 ties.append((case, idx, detail))
 
+    # the same judgement for a sample of the cases evaluated under `python -O` (assert statements removed): validation must not live in asserts
+    opt_sample = 0
+    if not replay and getattr(P, "OPT_MODE", True) and results:
+        rng3 = random.Random(seed + 104729)
+        pool_ = [r for r in results if not any(l.startswith(("wlrun", "plot", "move")) for l in r[0].block) and len(r[0].block) <= 60]
+        rej = [r for r in pool_ if any(s.startswith("exc") for s in r[3])]
+        oth = [r for r in pool_ if not any(s.startswith("exc") for s in r[3])]
+        rng3.shuffle(rej)
+        rng3.shuffle(oth)
+        sample = rej[:150 if tier == "quick" else 600] + oth[:60 if tier == "quick" else 300]
+        if sample:
+            try:
+                reals_o = core.eval_real_optimized([c.block for c, _, _, _ in sample])
+            except Exception as e:  # noqa
+                raise Infra("python -O evaluation: %r" % (e,))
+            opt_sample = len(sample)
+            for (case, _r, gens, specs), ro in zip(sample, reals_o):
+                for kind, idx, detail in judge(case, ro, gens, specs):
+                    if kind == "violation":
+                        kf = P.known_match(case, idx, ro, specs, listed, detail) if hasattr(P, "known_match") else None
+                        if not kf:
+                            c2 = Case(case.block, dict(case.tags, interpreter="python -O"), nontrivial=case.nontrivial)
+                            violations.append((c2, idx, "[in a child interpreter started with python -O (assert statements compiled away) and with RuntimeWarning raised as an error] " + detail, ro, specs))
+
     # deeper search for a concrete failing input when only the proof / tie is broken
     searched_more = False
     if (proof_broken or ties) and not violations and not replay and tier == "quick":
@@ -316,7 +341,7 @@ def run_check(pid, tier, seed, replay=None):
             "translator": {"ok": regen["ok"], "changed_files": regen["changed"], "errors": regen["errors"],
                            "unavailable": regen.get("unavailable", [])},
             "correspondence_disagreements": len(ties), "known_findings_seen": {k: v["count"] for k, v in knowns.items()},
-            "leanchecker": leancheck, "searched_more": searched_more,
+            "leanchecker": leancheck, "searched_more": searched_more, "cases_also_run_under_python_O": opt_sample,
             "timing_s": {"build_audit": round(t_build, 1), "real": round(t_real, 1), "driver": round(t_drv, 1)},
         },
         "assumptions": list(getattr(P, "ASSUMPTIONS", [])),
